@@ -1,7 +1,7 @@
 (* Case type and evaluation for C17: what the real namespace classes did, compared with what
    the generated description + bind_call predict, and judged by the boolean postcondition
    (Forward.post_okb, sound by ForwardSound.post_okb_sound). *)
-From VT Require Export Base.PyVal Forward.Forward Forward.ForwardSound.
+From VT Require Export Base.PyVal Forward.Forward Forward.ForwardSound Forward.Life.
 
 (* what the recording server/client object saw during one call of a helper *)
 Inductive obs :=
@@ -12,8 +12,16 @@ Inductive obs :=
 | ObsRaise (e : exn)                      (* the helper raised *)
 | ObsOther (ncalls : nat).                (* no call, or more than one, was received *)
 
+(* what was seen at one operation of the life of a namespace object (Forward/Life.v) *)
+Inductive lobs :=
+| LONone                                  (* attach / handler entered / handler left *)
+| LOKey (key : option pv)                 (* after register_namespace: the key of namespace_handlers
+                                             that holds the object, when there is exactly one *)
+| LOCall (o : obs).                       (* a helper call *)
+
 Inductive c17case :=
 | Fwd (h : helper) (u : method) (self_ns : pv) (c : call pv) (o : obs)
+| Life (k : nsclass) (cc : call pv) (ops : list lop) (os : list lobs)
 | SigOf (generated observed : signature) (gen_async obs_async : bool)
 | BindCase (sig : signature) (c : call pv) (o : Res (list (name * pv))).
 
@@ -32,12 +40,14 @@ Definition model_run (h : helper) (u : method) (self_ns : pv) (c : call pv)
   env' <- bind_call pid (m_sig u) c' ;;
   Ok (match h_body h with Return b => snd (callee b) | Unsupported => [] end, c', env').
 
-Definition corr_okb (h : helper) (u : method) (self_ns : pv) (c : call pv) (o : obs) : bool :=
-  match model_run h u self_ns c, o with
+Definition corr_res (r : Res (name * call pv * list (name * pv))) (o : obs) : bool :=
+  match r, o with
   | Ok (m, c', env'), ObsCall m' raw bound _ => str_eqb m m' && call_eqb c' raw && env_eqb env' bound
   | Err e, ObsRaise e' => exn_eqb e e'
   | _, _ => false
   end.
+Definition corr_okb (h : helper) (u : method) (self_ns : pv) (c : call pv) (o : obs) : bool :=
+  corr_res (model_run h u self_ns c) o.
 
 (* property verdict on the observation alone (the generated body is not consulted):
    0 = fine; otherwise 2 + reason bits
@@ -66,10 +76,60 @@ Definition prop_code (h : helper) (u : method) (self_ns : pv) (c : call pv) (o :
       match r with O => O | _ => 2 + r end
   end%nat.
 
+(* ---- the life of one namespace object ----
+   Correspondence (bit 1), operation by operation: what Life.life_run predicts from the generated
+   class description against what was seen.  Property (bit 2), on the observations alone and with
+   the namespace the object was CREATED for (Life.created_ns of the constructor call) as the own
+   namespace, whatever was dispatched before: the object is filed under that namespace
+   (512 otherwise) and every helper call satisfies prop_code with it. *)
+Definition life_op_corr (r : lres) (o : lobs) : bool :=
+  match r, o with
+  | RNone, LONone => true
+  | RKey (Ok v), LOKey (Some v') => pv_eqb v v'
+  | RCall x, LOCall o' => corr_res x o'
+  | _, _ => false
+  end.
+Definition life_op_prop (reg : pv) (op : lop) (o : lobs) : nat :=
+  match op, o with
+  | LRegister, LOKey key => if opt_eqb pv_eqb key (Some reg) then 0 else 2 + 512
+  | LHelper h u c, LOCall o' => prop_code h u reg c o'
+  | _, _ => 0
+  end%nat.
+Definition life_model (k : nsclass) (cc : call pv) (ops : list lop) : list lres :=
+  match init_state k cc with
+  | Ok st0 => life_run k st0 ops
+  | Err e => map (fun _ => RCall (Err e)) ops       (* no prediction: every operation disagrees *)
+  end.
+Fixpoint life_codes (reg : pv) (ops : list lop) (rs : list lres) (os : list lobs) : list nat :=
+  match ops, rs, os with
+  | [], _, [] => []
+  | op :: ops', r :: rs', o :: os' =>
+      ((if life_op_corr r o then 0 else 1) + life_op_prop reg op o)%nat :: life_codes reg ops' rs' os'
+  | _, _, _ => [1%nat]                              (* lengths differ *)
+  end.
+(* the first operation that violates the property, else the first one on which model and
+   implementation disagree: its code + 1024 * (its position + 1); 0 when all are fine *)
+Fixpoint first_with (p : nat -> bool) (i : nat) (l : list nat) : option (nat * nat) :=
+  match l with
+  | [] => None
+  | c :: r => if p c then Some (i, c) else first_with p (S i) r
+  end.
+Definition has_prop_bit (c : nat) : bool := Nat.leb 2 c.
+Definition life_eval (k : nsclass) (cc : call pv) (ops : list lop) (os : list lobs) : nat :=
+  let codes := life_codes (created_ns cc) ops (life_model k cc ops) os in
+  match first_with has_prop_bit O codes with
+  | Some (i, c) => c + 1024 * S i
+  | None => match first_with (fun c => negb (Nat.eqb c 0)) O codes with
+            | Some (i, c) => c + 1024 * S i
+            | None => 0
+            end
+  end%nat.
+
 Definition c17_eval (k : c17case) : nat :=
   match k with
   | Fwd h u self_ns c o =>
       ((if corr_okb h u self_ns c o then 0 else 1) + prop_code h u self_ns c o)%nat
+  | Life k cc ops os => life_eval k cc ops os
   | SigOf g o ga oa => if sig_eqb g o && Bool.eqb ga oa then 0%nat else 1%nat
   | BindCase sig c o => if res_eqb env_eqb (bind_call pid sig c) o then 0%nat else 1%nat
   end.
@@ -93,6 +153,14 @@ Proof.
   apply post_okb_sound. unfold post_okb. rewrite E1, E2, E4, E5. reflexivity.
 Qed.
 
+(* the same for a helper call inside a life: code 0 at that operation means the postcondition
+   with the namespace the object was created for *)
+Lemma life_op_prop_sound cc h u c env m raw bound ret :
+  bind_call pid (h_sig h) c = Ok env ->
+  life_op_prop (created_ns cc) (LHelper h u c) (LOCall (ObsCall m raw bound ret)) = 0%nat ->
+  ret = true /\ m = m_name u /\ post_ok (h_sig h) (m_sig u) c (created_ns cc) env bound.
+Proof. intros Hb H. exact (prop_code_sound h u (created_ns cc) c env m raw bound ret Hb H). Qed.
+
 (* diagnosis for replays: model's prediction and the parameters that differ *)
 Definition shared_bad (h : helper) (u : method) (c : call pv) (bound : list (name * pv))
   : list (name * option pv * option pv) :=
@@ -110,6 +178,7 @@ Definition c17_explain (k : c17case) :=
       (model_run h u self_ns c,
        match o with ObsCall _ _ bound _ => shared_bad h u c bound | _ => [] end,
        match bind_call pid (h_sig h) c with Ok env => Some (expected_ns self_ns env) | _ => None end)
+  | Life _ _ _ _ => (Err OtherError, [], None)
   | SigOf g _ _ _ => (Err OtherError, [], None)
   | BindCase sig c _ => (env <- bind_call pid sig c ;; Ok ([], mkCall [] [], env), [], None)
   end.
@@ -120,3 +189,13 @@ Fixpoint index_of (p : name) (l : list name) : nat :=
 Definition bad_idx (h : helper) (u : method) : bool * list (list nat) :=
   (static_okb h u,
    map (fun s => map (fun p => index_of p (sig_names (h_sig h))) s) (forwards_bad h u)).
+
+(* diagnosis of a life: the namespace the object was created for, the code of every operation and
+   what the model predicts for it *)
+Definition life_explain (k : nsclass) (cc : call pv) (ops : list lop) (os : list lobs) :=
+  (created_ns cc, life_codes (created_ns cc) ops (life_model k cc ops) os, life_model k cc ops).
+(* diagnosis of a failed proof about a class *)
+Definition class_diag (k : nsclass) :=
+  (k_plain k, ctor_sig_okb (k_ctor_sig k), ctor_okb (k_ctor k) false,
+   (no_ns_write (k_attach k), no_ns_write (k_register k), no_ns_write (k_dispatch k)),
+   match k_key k with KSelfNamespace => true | KUnsupported => false end).
